@@ -236,3 +236,10 @@ Theorem C09_http_boundary :
   http_resolve (HResp 300 0 true (Some a) true) = Err EHTTPCode.
 Proof. exact http_boundary. Qed.
 Print Assumptions C09_http_boundary.
+
+(* the *string members: what merkletree.NewHashFromHex (hex_decode) can produce fits the
+   32-byte Hash, so the numbers of the statements above range over [0, 2^256) *)
+Theorem C09_member_range :
+  forall (s : string) (z : Z), hex_decode s = HVal z -> 0 <= z < 2 ^ 256.
+Proof. exact hex_decode_range. Qed.
+Print Assumptions C09_member_range.
